@@ -147,4 +147,26 @@ impl<T, A: Allocator> Drop for RawIntoIter<T, A> {
          edits=[("src/set.rs", '                assert!(value.equivalent(&new), "new value is not equivalent");', "                let _ = value.equivalent(&new);")]),
     dict(name="c07-replace-keeps-old", checks=["C07"], desc="replace returns the new value and keeps the old one",
          edits=[("src/set.rs", "            Ok(bucket) => Some(mem::replace(unsafe { &mut bucket.as_mut().0 }, value)),", "            Ok(bucket) => { let _ = bucket; Some(value) }")]),
+    # ---- C02
+    dict(name="c02-ctrl_align-ignores-elem-align", checks=["C02"], desc="TableLayout::new ignores align_of::<T>()",
+         edits=[(RAW, "            ctrl_align: if layout.align() > Group::WIDTH {\n                layout.align()\n            } else {", "            ctrl_align: if false && layout.align() > Group::WIDTH {\n                layout.align()\n            } else {")]),
+    dict(name="c02-layout-omits-mirror-bytes", checks=["C02"], desc="calculate_layout_for omits the + Group::WIDTH control bytes",
+         edits=[(RAW, "        let len = ctrl_offset.checked_add(buckets + Group::WIDTH)?;", "        let len = ctrl_offset.checked_add(buckets)?;")]),
+    dict(name="c02-drain-does-not-move-table-out", checks=["C02"], desc="RawDrain copies the table instead of moving it out (a leaked drain leaves stale contents)",
+         edits=[(RAW, "            table: mem::replace(&mut self.table, RawTableInner::NEW),\n            orig_table: NonNull::from(&mut self.table),", "            table: ptr::read(&self.table),\n            orig_table: NonNull::from(&mut self.table),")]),
+    # ---- C08
+    dict(name="c08-capacity_to_buckets-minus-one", checks=["C08"], desc="capacity_to_buckets uses cap*8/7 - 1",
+         edits=[(RAW, "    let adjusted_cap = cap.checked_mul(8)? / 7;", "    let adjusted_cap = cap.checked_mul(8)? / 7 - 1;")]),
+    dict(name="c08-reserve-off-by-one", checks=["C08"], desc="reserve tolerates one missing slot",
+         edits=[(RAW, "        if unlikely(additional > self.table.growth_left) {\n            // Avoid `Result::unwrap_or_else` because it bloats LLVM IR.\n            unsafe {\n                // SAFETY: The [`RawTableInner`] must already have properly initialized control\n                // bytes since we will never expose RawTable::new_uninitialized in a public API.\n                if self\n                    .reserve_rehash(additional, hasher, Fallibility::Infallible)",
+                 "        if unlikely(additional > self.table.growth_left + 1) {\n            // Avoid `Result::unwrap_or_else` because it bloats LLVM IR.\n            unsafe {\n                // SAFETY: The [`RawTableInner`] must already have properly initialized control\n                // bytes since we will never expose RawTable::new_uninitialized in a public API.\n                if self\n                    .reserve_rehash(additional, hasher, Fallibility::Infallible)")]),
+    dict(name="c08-small-table-min-cap", checks=["C08"], desc="small-table minimum capacity for 1-byte elements dropped from 14 to 3 is fine, but `cap < 15` -> `cap < 16` picks 16 buckets for 15",
+         edits=[(RAW, "    if cap < 15 {", "    if cap < 16 {")]),
+    # ---- C12
+    dict(name="c12-try_reserve-infallible", checks=["C12"], desc="try_reserve uses Fallibility::Infallible",
+         edits=[(RAW, "            unsafe { self.reserve_rehash(additional, hasher, Fallibility::Fallible) }", "            unsafe { self.reserve_rehash(additional, hasher, Fallibility::Infallible) }")]),
+    dict(name="c12-alloc-error-wrong-layout", checks=["C12"], desc="AllocError carries a different layout",
+         edits=[(RAW, "            Err(_) => return Err(fallibility.alloc_err(layout)),", "            Err(_) => return Err(fallibility.alloc_err(Layout::new::<u64>())),")]),
+    dict(name="c12-spurious-capacity-overflow", checks=["C12"], desc="layout computation reports overflow above 512 KiB",
+         edits=[(RAW, "        if len > isize::MAX as usize - (ctrl_align - 1) {", "        if len > (isize::MAX as usize >> 44) - (ctrl_align - 1) {")]),
 ]
